@@ -44,6 +44,20 @@ def accepts (decls : List Class) (r : Creation) (p : Nat) (v : Val) : Bool :=
         | none => true
         | some t => t.accepts v
 
+/-- Does the object created as `r` accept value `v` for a method parameter declared with type
+parameter `name`?  As for a member, except that `null` is always let through. -/
+def takes (decls : List Class) (r : Creation) (name : Nat) (v : Val) : Bool :=
+  match decls[r.cls]? with
+  | none => true
+  | some c =>
+    v == .null ||
+      match r.args with
+      | none => true
+      | some args =>
+        match argOf c.params args name with
+        | none => true
+        | some t => t.accepts v
+
 /-- Is `new C<args>` well-formed: the class exists and every parameter gets an argument? -/
 def arityOk (decls : List Class) (c : Nat) (args : List Ty) : Bool :=
   match decls[c]? with
@@ -58,6 +72,12 @@ def creates (decls : List Class) : Op → Option Creation
     if arityOk decls c args && accepts decls ⟨c, some args⟩ p v then some ⟨c, some args⟩ else none
   | .write .. => none
   | .read .. => none
+  | .call .. => none
+  -- through which AST node a `new` is executed, and how often that node ran before, is immaterial
+  | .instAt _ c args => if arityOk decls c args then some ⟨c, some args⟩ else none
+  | .instRawAt _ c => if (decls[c]?).isSome then some ⟨c, none⟩ else none
+  | .instCtorAt _ c args p v =>
+    if arityOk decls c args && accepts decls ⟨c, some args⟩ p v then some ⟨c, some args⟩ else none
 
 /-- The objects of a history, in creation order (index = the `i` of `write i …`). -/
 def created (decls : List Class) (h : List Op) : List Creation :=
@@ -88,6 +108,29 @@ def outOf (decls : List Class) (objs : List Creation) : Op → Out
       else .crash
   | .write i p v => writeOut decls objs i p v
   | .read i _ => if i < objs.length then .readOk else .noInst
+  | .call i name v =>
+    match objs[i]? with
+    | none => .noInst
+    | some r =>
+      match decls[r.cls]? with
+      | none => .noClass
+      | some c =>
+        if name ∈ c.params then (if takes decls r name v then .accepted else .rejected) else .noMember
+  | .instAt _ c args =>
+    match decls[c]? with
+    | none => .noClass
+    | some cl => if cl.params.length ≤ args.length then .created objs.length else .crash
+  | .instRawAt _ c =>
+    match decls[c]? with
+    | none => .noClass
+    | some _ => .created objs.length
+  | .instCtorAt _ c args p v =>
+    match decls[c]? with
+    | none => .noClass
+    | some cl =>
+      if cl.params.length ≤ args.length then
+        if accepts decls ⟨c, some args⟩ p v then .created objs.length else .rejected
+      else .crash
 
 def runFrom (decls : List Class) (objs : List Creation) : List Op → List Out
   | [] => []
